@@ -56,7 +56,7 @@ func (c11) Budget(tier string) (int, int, int) {
 }
 
 var c11Mutators = []string{"mkdir", "create", "openw", "opena", "opent", "openwo", "openwoc", "write", "rename", "remove", "setlabel", "chmod", "chown", "chtimes", "symlink", "partition", "writepart", "createfs"}
-var c11Readers = []string{"gettable", "readdir", "readfile", "stat", "openread", "label", "gettable", "getfs", "readpart", "readmissing", "openmissing", "statmissing", "readdirmissing"}
+var c11Readers = []string{"gettable", "readdir", "readfile", "readfrag", "readempty", "stat", "openread", "label", "gettable", "getfs", "readpart", "readmissing", "openmissing", "statmissing", "readdirmissing"}
 
 func (c11) Gen(r *core.Rng, tier string, idx int) *core.Trace {
 	t := &core.Trace{Cfg: map[string]int64{}, CfgS: map[string]string{}}
@@ -106,10 +106,13 @@ func (p c11) Exec(t *core.Trace) *core.Result {
 		start = 1 << 20
 	}
 	content := core.PatternBytes(t.Seed, 3000)
-	tree := []imgEntry{{Path: "DIR", Dir: true}, {Path: "DIR/TARGET.DAT", Data: content}, {Path: "OTHER.BIN", Data: content[:700]}}
+	// (two files large enough to be written in interleaved rounds on ext4, so that they have more extents than an
+	// inode holds, and an empty file, which in a FAT volume made by the library still owns a cluster)
+	big := core.PatternBytes(t.Seed+1, 26000)
+	tree := []imgEntry{{Path: "DIR", Dir: true}, {Path: "DIR/TARGET.DAT", Data: content}, {Path: "OTHER.BIN", Data: content[:700]}, {Path: "FRAG1.BIN", Data: big}, {Path: "DIR/FRAG2.BIN", Data: big[:21000]}, {Path: "EMPTY.DAT"}}
 	var bi *builtImage
 	var berr error
-	if pk, _, _, _ := core.Guard(func() { bi, berr = buildImage(kind, tree, start, map[string]int64{"sqcomp": t.I("sqcomp")}) }); pk || berr != nil {
+	if pk, _, _, _ := core.Guard(func() { bi, berr = buildImage(kind, tree, start, map[string]int64{"sqcomp": t.I("sqcomp"), "frag": 7}) }); pk || berr != nil {
 		res.Evals = 1
 		res.Probe("build-failed")
 		return res
@@ -322,6 +325,10 @@ func (p c11) Exec(t *core.Trace) *core.Result {
 					io.ReadAll(f)
 					f.Close()
 				}
+			case "readfrag":
+				_, cerr = fs.ReadFile(bi.PathOf("FRAG1.BIN"))
+			case "readempty":
+				_, cerr = fs.ReadFile(bi.PathOf("EMPTY.DAT"))
 			case "readmissing":
 				// reading calls that name a path whose parent directories do not exist: an error, and nothing created on the way
 				_, cerr = fs.ReadFile(bi.PathOf("NOPE/SUB/X.TXT"))
